@@ -21,7 +21,7 @@ import math
 import hypothesis.strategies as st
 import torch
 
-from ..runner import Sub
+from ..runner import SkipCase, Sub
 
 PROPERTY = "C17"
 RULE = (
@@ -579,8 +579,17 @@ def execute_b(case, ctx):
     if model is not None:
         cand = copy.deepcopy(policy).eval()
         # the way REINFORCE.on_train_epoch_end does
-        ctx.guard(model.baseline.epoch_callback, model.policy, env=env, batch_size=model.val_batch_size, device="cpu",
-                  epoch=0, dataset_size=M, what="epoch_callback")
+        try:
+            model.baseline.epoch_callback(model.policy, env=env, batch_size=model.val_batch_size, device="cpu",
+                                          epoch=0, dataset_size=M)
+        except AssertionError as e:
+            if "T-statistic" in str(e):
+                # the library compares float32 means but asserts on the sign of a float64 t-statistic: on the tiny
+                # evaluation sets used here (M <= 8) the two can disagree by rounding. Not part of C17 (identity /
+                # order / baseline values): the case is excluded and counted.
+                ctx.exclude("epoch_callback_ttest_sign_rounding")
+                raise SkipCase()
+            raise
         if _same_params(inner.policy, snap):
             ctx.event("epoch_callback_kept_baseline")
         elif _same_params(inner.policy, cand):
